@@ -9,6 +9,8 @@ import Gzx.Proofs.DM
 import Gzx.Proofs.DMEcc
 import Gzx.Proofs.DMIlvIdx
 import Gzx.Proofs.DMIlv2
+import Gzx.Proofs.DMFinder
+import Gzx.Proofs.DMBytes
 import Gzx.Proofs.DMSizeA
 import Gzx.Proofs.DMSizeB
 import Gzx.Proofs.DMSizeC
@@ -234,6 +236,57 @@ theorem ecc_interleave_inv : ∀ p ∈ table7.zipIdx, ∀ d : List Nat, d.length
 /-- the decoder's version list for rows 1..30 is built from exactly these (number, row) pairs -/
 theorem isoVersions_eq : DMDec.isoVersions = table7.zipIdx.map (fun p => DMDec.ofSym (p.2 + 1) p.1) := by
   decide +kernel
+
+/-! ## finder / clock tracks, and the whole low-level chain -/
+
+/-- the decoder's extractDataRegion coordinate map against the reference framing, kernel-evaluated per row:
+    version found by dimensions = the row's version; the extracted matrix has the mapping-matrix size; its
+    cell `(wx, wy)` is read from the symbol module that shows mapping cell `wy * mapCols + wx` -/
+theorem extract_coords_checked : ∀ p ∈ table7.zipIdx, DMProofs.extractCheck (p.2 + 1) p.1 = true := by
+  intro p hp
+  have h := DMProofs.extractCheck_all
+  rw [List.all_eq_true] at h
+  exact h p hp
+
+/-- clause "L-shaped finder and alternating clock tracks of every data region", decoder side: for every row
+    and EVERY mapping matrix `m`, NewBitMatrixParser (dimension check, readVersion, extractDataRegion) applied
+    to the reference symbol of `m` returns the row's version and `m` itself -/
+theorem extract_inverts_framing : ∀ p ∈ table7.zipIdx, ∀ m : Array Bool, m.size = p.1.mapRows * p.1.mapCols →
+    DMDec.newBitMatrixParser DMDec.versions (DMProofs.symbolGrid p.1 m) =
+      .ok (DMDec.ofSym (p.2 + 1) p.1, ⟨p.1.mapCols, p.1.mapRows, m⟩) := by
+  intro p hp m hm
+  exact DMProofs.parser_of_symbolGrid (p.2 + 1) p.1 (extract_coords_checked p hp) m hm
+
+theorem zipIdx_mem_table7 : ∀ p ∈ table7.zipIdx, p.1 ∈ table7 := by
+  intro p hp
+  have h := List.mem_zipIdx_iff_getElem?.1 hp
+  exact List.mem_of_getElem? h
+
+/-- THE LOW-LEVEL CHAIN: for each of the 30 ECC 200 sizes and EVERY data codeword vector `d` (bytes) of the
+    symbol's capacity, the decoder model applied to the reference symbol `symbolBits s d` (reference ECC +
+    interleaving + Annex F placement + finder/clock framing) recovers the version, the mapping matrix, the
+    complete codeword sequence, the per-block (data ++ error) codewords and finally `d` itself
+    (error correction of an undamaged block is the identity: C04/C05). -/
+theorem decoder_inverts_reference_symbol : ∀ p ∈ table7.zipIdx, ∀ d : List Nat, d.length = p.1.nData →
+    (∀ x ∈ d, x < 256) →
+    let s := p.1
+    let v := DMDec.ofSym (p.2 + 1) s
+    let cw := codewords s d
+    let m := mappingBits s.mapRows s.mapCols cw
+    let blocks := (List.range s.blocks).map (fun b => (s.dataLen b, blockData s d b ++ blockEcc s d b))
+    DMDec.newBitMatrixParser DMDec.versions ⟨s.cols, s.rows, (symbolBits s d).flatten.toArray⟩ =
+        .ok (v, ⟨s.mapCols, s.mapRows, m⟩) ∧
+    DMDec.readCodewords v ⟨s.mapCols, s.mapRows, m⟩ = .ok cw ∧
+    DMDec.getDataBlocks cw v = .ok blocks ∧
+    DMDec.resultBytes blocks = .ok d := by
+  intro p hp d hd hb
+  have hs := zipIdx_mem_table7 p hp
+  have hcwlen : (codewords p.1 d).length = p.1.total := DMProofs.codewords_length p.1 d hd
+  have hcwb : ∀ x ∈ codewords p.1 d, x < 256 := DMProofs.codewords_bytes p.1 d hb
+  have hilv := ecc_interleave_inv p hp d hd
+  refine ⟨?_, ?_, hilv.1, hilv.2⟩
+  · exact extract_inverts_framing p hp _ (DMProofs.mappingBits_size _ _ _)
+  · exact read_place_inv p.1 hs (p.2 + 1) _ hcwlen hcwb
 
 /-! ## randomising rules -/
 
